@@ -31,6 +31,8 @@ ALT_KEYS = {"ECDH-ES": ["p256", "p384", "p521", "k256", "x25519", "x448"], "ECDH
 SENDER = {"p256": "p256b", "x25519": "x25519b", "p384": "p384", "x448": "x448", "p521": "p521", "k256": "k256"}
 DIR_KEY = {16: "oct16", 24: "oct24", 32: "oct32", 48: "oct48", 64: "oct64"}
 PLAINTEXTS = [b"", b"x", b"sixteen byte msg", b"plaintext " * 7, b"\x00\xff binary \x80\x81", "unicode é中".encode(), b"{\"sub\":\"a\"}"]
+# a plaintext that is itself a complete raw DEFLATE stream (an application-level compressed blob)
+DEFLATE_LOOKING = __import__("zlib").compress(b'{"pay":"mallory","amount":1000000}')[2:-4]
 
 
 def key_name(alg, enc, rng=None):
@@ -250,6 +252,18 @@ def tamper(case: DCase, rng, others=()):
                 mk(v2, "nonempty-encrypted-key-direct")
             else:
                 mk(w(encrypted_key="AQEBAQEBAQE"), "nonempty-encrypted-key-direct")
+        # message-wide parameters (enc, zip) count only where they are integrity protected: the same names in the
+        # shared unprotected or per-recipient header (not covered by the AAD) must not change what is returned
+        try:
+            prot_members = json.loads(b64u_dec(v["protected"]))
+        except Exception:  # noqa: BLE001
+            prot_members = {}
+        if isinstance(prot_members, dict) and "zip" not in prot_members:
+            mk(w(unprotected=dict(v.get("unprotected") or {}, zip="DEF")), "benign-unprotected-zip")
+            v2 = copy.deepcopy(v)
+            t2 = v2["recipients"][0] if "recipients" in v2 else v2
+            t2["header"] = dict(t2.get("header") or {}, zip="DEF")
+            mk(v2, "benign-recipient-zip")
         if items is not None:
             # the recipient list itself: emptied, or its entries replaced by empty objects
             mk(w(recipients=[]), "empty-recipients")
